@@ -224,47 +224,36 @@ example : parseInterval (displayInterval 0 0 1500) = .ok (0, 0, 1000) := by deci
 
 /-- FULL statement: every timestamp that can be printed parses back to itself. -/
 def TimestampRoundtripFull : Prop :=
-  ∀ us : Int, ∀ t, displayTimestamp us = .ok t → parseTimestamp t = some (.ok us)
+  ∀ us : Int, tsPrintable us = true → ∀ t, displayTimestamp us = .ok t → parseTimestamp t = some (.ok us)
 
-/-- witness: 1 µs after the epoch prints as `1940-01-02 00:00:00.001` (truncation toward zero
-of a negative millisecond count), which `from_str` rejects
-(known finding `roundtrip:timestamp:subsecond`) -/
-theorem timestamp_roundtrip_unsound : ¬ TimestampRoundtripFull := by
-  intro h
-  have := h 1 _ rfl
-  revert this
-  decide
-
-/-- even whole-second timestamps fail: years below -9999 are printed with 5+ unsigned digits
-(known finding `roundtrip:timestamp:bc-year-over-4-digits`) -/
-theorem timestamp_wholesec_roundtrip_unsound :
-    ¬ (∀ us : Int, us % 1000000 = 0 → ∀ t, displayTimestamp us = .ok t → parseTimestamp t = some (.ok us)) := by
-  intro h
-  have := h (-922097156719000000) (by decide) _ rfl
-  revert this
-  decide
-
-/-- PROVED PART: a timestamp with a whole number of seconds (`µs % 10⁶ = 0`) that Display can
-print (no i64 underflow, inside chrono's range) and whose civil year is ≥ −9999 survives
-Display + FromStr — AD years up to +262142 (signed 5–6 digit years included) and the ` BC` form. -/
-theorem timestamp_roundtrip_partial (us : Int) (hsec : us % 1000000 = 0)
-    (hlo : i64Lo ≤ us - thirtyYearsUs)
-    (hr : tsMsInRange (Int.tdiv (us - thirtyYearsUs) 1000) = true)
-    (hy : -9999 ≤ (civilFromDays (Int.tdiv (us - thirtyYearsUs) 1000 / 86400000)).1) :
+/-- PROVED (after the fix of `roundtrip:timestamp:subsecond` / `…:bc-year-over-4-digits`): EVERY
+printable timestamp — µs precision, AD years up to +262142, BC form, signed wide years — survives
+Display + FromStr, except those in chrono's very first year −262143 (its BC mirror +262143 is not a
+chrono year: known finding `roundtrip:timestamp:first-chrono-year`). -/
+theorem timestamp_roundtrip (us : Int) (hp : tsPrintable us = true)
+    (hy : chronoMinYear < (civilFromDays ((us - thirtyYearsUs) / 86400000000)).1) :
     ∃ t, displayTimestamp us = .ok t ∧ parseTimestamp t = some (.ok us) :=
-  parseTimestamp_displayTimestamp us hsec hlo hr hy
+  parseTimestamp_displayTimestamp us hp hy
 
--- 2000-01-01 00:00:00 (stored 946684800·10⁶ + 30y), a BC value, a year-10000 value
-example : ∃ t, displayTimestamp 1893369600000000 = .ok t ∧ parseTimestamp t = some (.ok 1893369600000000) :=
-  timestamp_roundtrip_partial _ (by decide) (by decide) (by decide) (by decide)
-example : ∃ t, displayTimestamp (-70000000000000000) = .ok t ∧ parseTimestamp t = some (.ok (-70000000000000000)) :=
-  timestamp_roundtrip_partial _ (by decide) (by decide) (by decide) (by decide)
-example : ∃ t, displayTimestamp 300000000000000000 = .ok t ∧ parseTimestamp t = some (.ok 300000000000000000) :=
-  timestamp_roundtrip_partial _ (by decide) (by decide) (by decide) (by decide)
+/-- REGRESSIONS (were `timestamp_roundtrip_unsound`, `timestamp_wholesec_roundtrip_unsound`): 1 µs,
+−1 µs, 1500 µs and a whole-second timestamp in year −27251 come back exactly -/
+theorem timestamp_subsecond_regression :
+    (∃ t, displayTimestamp 1 = .ok t ∧ parseTimestamp t = some (.ok 1)) ∧
+    (∃ t, displayTimestamp (-1) = .ok t ∧ parseTimestamp t = some (.ok (-1))) ∧
+    (∃ t, displayTimestamp 1500 = .ok t ∧ parseTimestamp t = some (.ok 1500)) ∧
+    (∃ t, displayTimestamp (-922097156719000000) = .ok t ∧ parseTimestamp t = some (.ok (-922097156719000000))) :=
+  ⟨timestamp_roundtrip _ (by decide) (by decide), timestamp_roundtrip _ (by decide) (by decide),
+   timestamp_roundtrip _ (by decide) (by decide), timestamp_roundtrip _ (by decide) (by decide)⟩
 
-example : ∃ t, displayTimestamp 0 = .ok t ∧ parseTimestamp t = some (.ok 0) := ⟨_, rfl, by decide⟩
--- a negative sub-millisecond part is dropped silently instead
-example : ∃ t, displayTimestamp (-1) = .ok t ∧ parseTimestamp t = some (.ok 0) := ⟨_, rfl, by decide⟩
+-- 1 µs after the stored epoch prints with six fraction digits
+example : displayTimestamp 1 = .ok [49, 57, 52, 48, 45, 48, 49, 45, 48, 50, 32, 48, 48, 58, 48, 48, 58, 48, 48, 46, 48, 48, 48, 48, 48, 49] := by decide
+
+/-- the remaining gap of the FULL statement: the first chrono year -/
+theorem timestamp_first_year_unsound : ¬ TimestampRoundtripFull := by
+  intro h
+  have := h (-8334588182400000000 + thirtyYearsUs) (by decide) _ rfl
+  revert this
+  decide
 
 /-! ### f64 (modelled subset: integer-valued doubles below 2^53, ±0, ±inf, NaN) and time zones
 
